@@ -179,6 +179,31 @@ class C05(fw.Prop):
             {"kind": "hop", "o": ["Custom", "And", [[["UnitSum", 2], ["UnitSum", 2]], [["UnitSum", 2]], []], "", "demo.ext", []],
              "wire": True},
             {"kind": "hop", "o": ["LoadConst", ["Qubit"]], "wire": True},
+            # seeded C05-j: Hugr._from_serial added an edge between two order ports through add_order_link, which skips a
+            # pair of nodes that is already linked: the second of two order edges between the same ordered pair of nodes
+            # was dropped on load.  A foreign document with the edge 4 -> 5 written twice without offsets ...
+            {"kind": "doc", "j": {"version": "live", "nodes": [
+                {"parent": 0, "op": "Module"},
+                {"parent": 0, "op": "FuncDefn", "name": "main", "signature": {"params": [], "body": ORD_G([], [])}},
+                {"parent": 1, "op": "Input", "types": []}, {"parent": 1, "op": "Output", "types": []},
+                {"parent": 1, "op": "Extension", "extension": "dbg", "name": "first", "signature": ORD_G([], []),
+                 "description": "", "args": []},
+                {"parent": 1, "op": "Extension", "extension": "dbg", "name": "second", "signature": ORD_G([], []),
+                 "description": "", "args": []}],
+                "edges": [[[2, None], [4, None]], [[4, None], [5, None]], [[4, None], [5, None]], [[5, None], [3, None]]],
+                "metadata": [None, None, None, None, {"k": 1}, None], "encoder": "not hugr-py"}},
+            # ... once without and once with the explicit offsets (node 5: two inputs, one output), three times Input -> 5,
+            # and a value edge written twice
+            {"kind": "doc", "j": {"version": "live", "nodes": [
+                {"parent": 0, "op": "DFG", "signature": ORD_G([ORD_B, ORD_B], [ORD_B])},
+                {"parent": 0, "op": "Input", "types": [ORD_B, ORD_B]}, {"parent": 0, "op": "Output", "types": [ORD_B]},
+                {"parent": 0, "op": "Extension", "extension": "demo.ext", "name": "Init", "signature": ORD_G([], [ORD_B]),
+                 "description": "", "args": []},
+                {"parent": 0, "op": "Extension", "extension": "demo.ext", "name": "And", "signature": ORD_G([ORD_B, ORD_B], [ORD_B]),
+                 "description": "", "args": []}],
+                "edges": [[[1, 0], [4, 0]], [[3, 0], [4, 1]], [[4, 0], [2, 0]], [[4, 0], [2, 0]],
+                          [[3, None], [4, None]], [[3, 1], [4, 2]], [[1, None], [4, None]], [[1, 2], [4, None]], [[1, None], [4, 2]],
+                          [[4, 1], [2, 1]], [[4, None], [2, None]]]}},
         ]
 
     def generate(self, rng, tier, ctx):
@@ -263,6 +288,10 @@ class C05(fw.Prop):
                 cases.append({"kind": "hop", "o": O.gen_op(rng, kind, rng.choice([1, 2])), "wire": True})
         for _ in range(15 * k):
             cases.append({"kind": "hop", "o": O.gen_op_coinc(rng), "wire": True})
+        # seeded round 5 (drawn after every older stream): hand-written documents in which edges of every kind -- value,
+        # static, state-order (each copy's ends spelt afresh: null or the explicit offset) -- occur two or three times
+        for _ in range(50 * k):
+            cases.append({"kind": "doc", "j": O.gen_jorderdoc(rng, multi=0.35)})
         import glob, os
         for f in sorted(glob.glob(os.path.join(fw.REPO, "resources", "test", "*.json")) +
                         glob.glob(os.path.join(fw.REPO, "hugr-core", "src", "hugr", "serialize", "upgrade", "testcases", "*.json"))):
